@@ -344,7 +344,7 @@ inline world& W() { return world::get(); }
 
 inline jev::jev(const char* e) {
     auto& w = W();
-    s = "{\"e\":\""; s += e; s += "\",\"n\":"; s += std::to_string(++w.seq);
+    s = "{\"e\":\""; s += e; s += "\",\"n\":"; s += std::to_string(w.tracing ? ++w.seq : w.seq);
     s += ",\"t\":"; s += std::to_string(vt::now_ms());
 }
 inline jev::~jev() { s += "}"; W().emit(s); }
